@@ -59,10 +59,11 @@ inductive HasTy (cfg : Cfg) (S : Sem) : Ty → Val → Prop
   | union {args : List Ty} {t : Ty} {v : Val} : t ∈ args → HasTy cfg S t v → HasTy cfg S (.union args) v
   | tagged {m : Nat} {t : Ty} {v : Val} : HasTy cfg S t v → HasTy cfg S (.tagged m t) v
 
-/-- "a class that is neither generic nor parametrised" (`Any` is such a class since 3.11) -/
-inductive NonGenericClass : Ty → Nat → Prop
-  | cls (c : Nat) : NonGenericClass (.cls c []) c
-  | any : NonGenericClass .any anyCls
+/-- "the type is a class that is neither generic nor parametrised"; the values of the empty
+    tuple type `Tuple[()]` are instances of the class `tuple` -/
+inductive ClassOf : Ty → Nat → Prop
+  | cls (c : Nat) : ClassOf (.cls c []) c
+  | emptyTuple : ClassOf (.ftuple []) Conc.tuple.cls
 
 /-- `Optional[a]`: a union of `a` and `None` (normalisation fixes the order by name) -/
 inductive IsOptionalOf : Ty → Ty → Prop
@@ -77,7 +78,7 @@ inductive AsIs (sub : Nat → Nat → Bool) : Ty → Ty → Prop
   /-- destination type is `Any` -/
   | dstAny {s d : Ty} : stripTags d = .any → AsIs sub s d
   /-- source type is a subclass of destination type (excluding generics) -/
-  | subclass {s d : Ty} {a b : Nat} : NonGenericClass (stripTags s) a → NonGenericClass (stripTags d) b →
+  | subclass {s d : Ty} {a b : Nat} : ClassOf (stripTags s) a → stripTags d = .cls b [] →
       sub a b = true → AsIs sub s d
   /-- source union is a subset of destination union (simple `==` check) -/
   | unionSubset {s d : Ty} {ss ds : List Ty} : stripTags s = .union ss → stripTags d = .union ds →
@@ -117,8 +118,8 @@ end
 structure WorldOk (cfg : Cfg) (S : Sem) : Prop where
   sub_refl : ∀ a, cfg.sub a a = true
   sub_trans : ∀ a b c, cfg.sub a b = true → cfg.sub b c = true → cfg.sub a c = true
-  /-- the only superclasses of the class `typing.Any` are universal (`object`) -/
-  any_top : ∀ b, cfg.sub anyCls b = true → cfg.shape b [] = Option.none ∧ ∀ t, cfg.sub t b = true
+  /-- the class `tuple` is not a subclass of a model class -/
+  tuple_plain : ∀ b fb, cfg.sub Conc.tuple.cls b = true → cfg.shape b [] = some fb → False
   /-- a subclass of a model is a model that keeps the inherited fields and their types -/
   inherit : ∀ a b fb, cfg.sub a b = true → cfg.shape b [] = some fb →
     ∃ fa, cfg.shape a [] = some fa ∧ ∀ f ∈ fb, ∃ g ∈ fa, g.name = f.name ∧ g.ty = f.ty
